@@ -229,3 +229,5 @@ UNITS.append(Unit("C07", "jsonargparse._core:ActionsContainer.add_argument", ada
 import dataclasses as _dc  # noqa: E402
 from contracts.c12 import UNITS as _C12_UNITS  # noqa: E402
 UNITS += [_dc.replace(u, prop="C07") for u in _C12_UNITS if u.target.endswith(("_add_signature_arguments", "_add_signature_parameter"))]
+from contracts.c04 import UNITS as _C04_UNITS  # noqa: E402
+UNITS += [_dc.replace(u, prop="C07") for u in _C04_UNITS if "_ActionConfigLoad." in u.target]
